@@ -16,16 +16,17 @@ def cases(tier, seed):
     tables = list(gen.REPRESENTATIVE_TABLES.values()) + [gen.binnify([12, 5], 2)]
     # (1) selectors
     for h in range(90 if tier == "quick" else 1500):
-        table = tables[h % len(tables)]
+        F_h = gen.feat(101, h)          # independent feature choices per case (gen.feat)
+        table = tables[F_h("len_tables@18", len(tables))]
         n = len(table)
-        mode = "symm" if h % 2 else "square"
+        mode = "symm" if F_h("m2@20", 2) else "square"
         px = gen.random_store(rng, n, mode, maxval=9)
         w = [rng.randint(0, 9) for _ in range(n)]
-        which = ["bins", "pixels", "chroms"][h % 3]
+        which = ["bins", "pixels", "chroms"][F_h("m3@23", 3)]
         lens = gen.chrom_lens(table)
         if which == "bins":
             rows = [[t[0], t[1], t[2], w[k]] for k, t in enumerate(table)]
-            wname = ["w", "chrom_x", "mychrom", "weight2", "chromosome"][(h // 3) % 5]     # names that CONTAIN "chrom", too
+            wname = ["w", "chrom_x", "mychrom", "weight2", "chromosome"][F_h("d3_5@27", 5)]     # names that CONTAIN "chrom", too
             allcols = ["chrom", "start", "end", wname]
         elif which == "pixels":
             rows = px
@@ -46,15 +47,16 @@ def cases(tier, seed):
             single = len(idx) == 1 and rng.random() < 0.5
             qs.append({"s": s, "colidx": [i + 1 for i in idx], "colnames": [allcols[i] for i in idx], "single": single,
                        "explicit": rng.random() < 0.3})
-        joined = which == "pixels" and h % 2 == 1          # the same selections through pixels(join=True)
+        joined = which == "pixels" and F_h("m2@48", 2) == 1          # the same selections through pixels(join=True)
         if joined:
             for q in qs:
                 q["single"] = False
         yield "sel.table", {"table": table, "mode": mode, "px": px, "w": w, "which": which, "rows": rows, "allcols": allcols, "qs": qs,
                             "joined": joined, **({"wname": wname} if which == "bins" else {}),
-                            "encoding": "enum" if h % 4 else "int", **({"at": ["/resolutions/5", "/a/b"][h % 2]} if h % 5 == 2 else {})}
+                            "encoding": "enum" if F_h("m4@54", 4) else "int", **({"at": ["/resolutions/5", "/a/b"][F_h("m2@54", 2)]} if F_h("m5@54", 5) == 2 else {})}
     # (1b) indexes given as NumPy scalars of a narrow dtype, at the top of its range (tables with more than 127 / 255 rows)
     for h, nb in enumerate([16, 23] if tier == "quick" else [16, 17, 23, 24]):
+        F_h = gen.feat(102, h)          # independent feature choices per case (gen.feat)
         table = gen.binnify([nb], 1)
         px = [[i, j, 1 + (i + j) % 5] for i in range(nb) for j in range(i, nb)]
         nrows = len(px)
@@ -72,27 +74,28 @@ def cases(tier, seed):
                             "qs": qs, "joined": False, "encoding": "enum"}
     # (2) annotation
     for h in range(450 if tier == "quick" else 8000):
-        table = tables[h % len(tables)]
+        F_h = gen.feat(103, h)          # independent feature choices per case (gen.feat)
+        table = tables[F_h("len_tables@74", len(tables))]
         n = len(table)
-        mode = "symm" if h % 2 else "square"
+        mode = "symm" if F_h("m2@76", 2) else "square"
         w = [rng.randint(0, 9) for _ in range(n)]
         px = gen.random_store(rng, n, mode, maxval=9)
-        form = ["frame", "selector", "part", "part", "selector_cols", "join"][h % 6]
+        form = ["frame", "selector", "part", "part", "selector_cols", "join"][F_h("m6@79", 6)]
         binattrs = [[t[0], t[1], t[2], w[k]] for k, t in enumerate(table)]
         if form == "join":
             lo = rng.randint(0, len(px))
             hi = rng.randint(lo, len(px))
             pixels = [[k, px[k][0], px[k][1], px[k][2]] for k in range(lo, hi)]
             yield "sel.annotate", {"table": table, "mode": mode, "px": px, "w": w, "pixels": pixels, "bins_form": form, "part": [0, n],
-                                   "lo": lo, "hi": hi, "binattrs": [b[:3] for b in binattrs], "encoding": "enum" if h % 3 else "int"}
+                                   "lo": lo, "hi": hi, "binattrs": [b[:3] for b in binattrs], "encoding": "enum" if F_h("m3@86", 3) else "int"}
             continue
         # few pixels relative to the bin count (window path), many (whole-table path), none
-        k = [0, 1, 2, 3, n, n + 1, 2 * n + 3][h % 7]
+        k = [0, 1, 2, 3, n, n + 1, 2 * n + 3][F_h("m7@89", 7)]
         pixels = [[rng.randint(0, 50) * 7 + i, rng.randrange(n), rng.randrange(n), rng.randint(1, 9)] for i in range(k)]
-        if h % 5 == 0:
+        if F_h("m5@91", 5) == 0:
             pixels.sort(key=lambda p: -p[3])                        # e.g. ranked by count
         rindex = None
-        if h % 4 == 1 and k:
+        if F_h("m4@94", 4) == 1 and k:
             # labelled by a RangeIndex that is not 0..k-1: a positional slice / a reversed / a strided view of a numbered frame
             step = rng.choice([1, 1, 2, 3, -1, -2])
             start = rng.randint(0, 12) if step > 0 else rng.randint(0, 5) + (-step) * (k - 1)
@@ -107,9 +110,9 @@ def cases(tier, seed):
             if a == b:
                 b = a + 1
         yield "sel.annotate", {"table": table, "mode": mode, "px": px, "w": w, "pixels": pixels, "bins_form": form, "part": [a, b],
-                               "binattrs": binattrs, "encoding": "enum" if h % 3 else "int",
-                               "id_dtype": ["int64", "int32", "uint32"][h % 3], **({"rindex": rindex} if rindex else {}),
-                               **({"at": "/resolutions/5"} if h % 6 == 4 else {})}
+                               "binattrs": binattrs, "encoding": "enum" if F_h("m3@109", 3) else "int",
+                               "id_dtype": ["int64", "int32", "uint32"][F_h("m3@110", 3)], **({"rindex": rindex} if rindex else {}),
+                               **({"at": "/resolutions/5"} if F_h("m6@111", 6) == 4 else {})}
 
 
 def run(tier, seed, only_case=None):
